@@ -35,18 +35,20 @@ Qed.
 Lemma c_inc_comm s a b : c_inc (c_inc s a) b = c_inc (c_inc s b) a.
 Proof. unfold c_inc. rewrite !wrap32_add_l. f_equal. lia. Qed.
 
-Lemma c_exec_remote_comm s a b : c_exec_remote (c_exec_remote s a) b = c_exec_remote (c_exec_remote s b) a.
-Proof. destruct a, b; cbn; try reflexivity. apply c_inc_comm. Qed.
+Lemma c_exec_remote_comm s a b : is_snap a = false -> is_snap b = false ->
+  c_exec_remote (c_exec_remote s a) b = c_exec_remote (c_exec_remote s b) a.
+Proof. destruct a, b; cbn; intros Ha Hb; try discriminate; try reflexivity. apply c_inc_comm. Qed.
 
 (* the outcome is a function of the multiset of increments: the 32-bit wrapped sum *)
 Definition delta_of (o : op) : Z := match o with OInc _ d => d | _ => 0 end.
 Fixpoint sum_deltas (l : list op) : Z := match l with [] => 0 | o :: l' => delta_of o + sum_deltas l' end.
 
-Lemma c_fold_sum l : forall s, wrap32 (fold_left c_exec_remote l s) = wrap32 (s + sum_deltas l).
+Lemma c_fold_sum l : no_snap l -> forall s, wrap32 (fold_left c_exec_remote l s) = wrap32 (s + sum_deltas l).
 Proof.
-  induction l as [|o l IH]; intros s; cbn [fold_left sum_deltas].
+  induction l as [|o l IH]; intros Hn s; cbn [fold_left sum_deltas].
   - f_equal. lia.
-  - rewrite IH. destruct o; cbn [c_exec_remote delta_of]; try (f_equal; lia).
+  - inversion Hn as [|? ? Ho Hl]; subst. rewrite (IH Hl).
+    destruct o; cbn [c_exec_remote delta_of]; try discriminate; try (f_equal; lia).
     unfold c_inc. rewrite wrap32_add_l. f_equal. lia.
 Qed.
 
@@ -54,22 +56,31 @@ Lemma c_fold_range l : forall s, -2147483648 <= s < 2147483648 ->
   -2147483648 <= fold_left c_exec_remote l s < 2147483648.
 Proof.
   induction l as [|o l IH]; intros s H; cbn [fold_left]; [exact H|].
-  apply IH. destruct o; cbn; try exact H. apply wrap32_range.
+  apply IH. destruct o; cbn; try exact H; [unfold c_init; lia | apply wrap32_range].
 Qed.
 
-Theorem counter_outcome l : fold_left c_exec_remote l c_init = wrap32 (sum_deltas l).
+Theorem counter_outcome l : no_snap l -> fold_left c_exec_remote l c_init = wrap32 (sum_deltas l).
 Proof.
+  intros Hn.
   rewrite <- (wrap32_id (fold_left c_exec_remote l c_init)) by (apply c_fold_range; unfold c_init; lia).
-  rewrite c_fold_sum. reflexivity.
+  rewrite (c_fold_sum _ Hn). reflexivity.
 Qed.
+
+(* a snapshot operation replaces whatever was there: the counter restarts from its body, the initial value *)
+Lemma counter_snapshot_resets l1 i l2 : no_snap l2 ->
+  fold_left c_exec_remote (l1 ++ OSnap i :: l2) c_init = wrap32 (sum_deltas l2).
+Proof. intros Hn. rewrite fold_left_app. cbn [fold_left c_exec_remote]. apply counter_outcome, Hn. Qed.
 
 Lemma sum_deltas_perm l l' : Permutation l l' -> sum_deltas l = sum_deltas l'.
 Proof. induction 1; cbn; lia. Qed.
 
 (* any two orders of the same operations give the same counter *)
-Theorem counter_permutation l l' : Permutation l l' ->
+Theorem counter_permutation l l' : no_snap l -> Permutation l l' ->
   fold_left c_exec_remote l c_init = fold_left c_exec_remote l' c_init.
-Proof. intros H. rewrite !counter_outcome, (sum_deltas_perm _ _ H). reflexivity. Qed.
+Proof.
+  intros Hn H. assert (Hn' : no_snap l') by (unfold no_snap in *; rewrite <- H; exact Hn).
+  rewrite (counter_outcome _ Hn), (counter_outcome _ Hn'), (sum_deltas_perm _ _ H). reflexivity.
+Qed.
 
 (* a local increase has exactly the effect of delivering the operation it emits *)
 Lemma counter_local_eq_remote s c i s' o r :
